@@ -4,3 +4,5 @@ import VsgProofs.Properties.C01
 import VsgProofs.Properties.C02
 import VsgProofs.Properties.C03
 import VsgProofs.Properties.C07
+import VsgProofs.Lemmas.Lex
+import VsgProofs.Properties.C04
